@@ -573,7 +573,21 @@ def m_barrier(run):
     for t in submitted_before:
         if t not in ev_set:
             f.append(f'transfer {t} was not done when shutdown returned')
-    for i, r in enumerate(run.trace[idx + 1:], idx + 1):
+    # A DIFFERENT user thread that is inside its own future.cancel() when shutdown returns still owes the
+    # announce of the transfer it cancelled while not-started (cancel() announces synchronously in the
+    # caller's thread): what that thread does until its cancel() returns is outside C18's quantifier (the
+    # model's hypothesis user_quiet; unconditional form refuted in props/C18.v) and is not held against
+    # the barrier.
+    in_cancel = {}
+    for i, r in enumerate(run.trace):
+        if r['ev'] == 'cancel_call':
+            in_cancel[r['thread']] = in_cancel.get(r['thread'], 0) + 1
+        elif r['ev'] == 'cancel_return':
+            in_cancel[r['thread']] = in_cancel.get(r['thread'], 0) - 1
+        if i <= idx:
+            continue
+        if in_cancel.get(r['thread'], 0) > 0 and r['thread'] != 'user':
+            continue
         if r['ev'].startswith('s3_') or r['ev'] in ('fs', 'on_done', 'on_progress', 'on_queued', 'callback_begin'):
             f.append(f'{r["ev"]} {r.get("op", r.get("fn", ""))} happened after shutdown returned')
             break
